@@ -218,4 +218,5 @@ def check(ctx):
         common.check_derives(f, rep, 'C19-R0')
         r1_destinations(ctx, f, rep)
         r2_pickers(ctx, f, rep)
+        common.routing_reads_current_identity(ctx, f, rep, 'C19-R2')
     rep.cur_config = None
